@@ -115,11 +115,17 @@ func runC12(args []string) {
 			addPkg(h.Name, h.S, o, nil)
 		}
 	}
-	generateAll(bin, pkgs)
 	mod, err := newMod("c12")
 	if err != nil {
 		fatalSetup(r, err)
 	}
+	// separate-mode import sets: imported enum/struct/message/union used bare, in arrays, in maps,
+	// in message fields and in union members, the application package under every option row
+	for _, ip := range importSets(mod, "p9", 0, pw) {
+		ip.Label += "/" + ip.Opts.String()
+		pkgs = append(pkgs, ip)
+	}
+	generateAll(bin, pkgs, mod)
 	if err := mod.compile(pkgs); err != nil {
 		r.Inconclusive("go build: " + core.Short(err.Error(), 200))
 	}
@@ -147,7 +153,7 @@ func runC12(args []string) {
 		if p.ReadErr != "" || p.GenErr != "" {
 			rejected++
 			r.Hist("rejected by ReadFile/Generate (outside the domain)")
-			if p.Cell != nil || fam == "random" || fam == "construct" {
+			if p.Cell != nil || fam == "random" || fam == "construct" || fam == "imports" {
 				// these are well-formed by construction: a rejection is reported (it would hide the cell)
 				r.Eval("")
 				detail["error"] = p.ReadErr + p.GenErr
